@@ -149,7 +149,13 @@ func (ex *Exec) binop(fr *Frame, st *State, op token.Token, x, y Val, rt types.T
 				o = "bvsrem"
 			}
 		}
-		return scalar(rt, BVBin(o, a, b))
+		r := BVBin(o, a, b)
+		if o == "bvurem" && b.Op != "bvconst" {
+			// valid bit-vector fact (instance of a tautology): for a power-of-two divisor, % is a mask
+			p2 := And(Not(Eq(b, BVI(0, w))), Eq(BVBin("bvand", b, BVBin("bvsub", b, BVI(1, w))), BVI(0, w)))
+			ex.assume(st, Implies(p2, Eq(r, BVBin("bvand", a, BVBin("bvsub", b, BVI(1, w))))))
+		}
+		return scalar(rt, r)
 	case token.AND:
 		return scalar(rt, BVBin("bvand", a, b))
 	case token.OR:
